@@ -834,12 +834,15 @@ def check_move(tr, mv):
             tr.violate('C18', 'number_of_transfer_steps', direction=mv['direction'], steps=nsteps,
                        expected=exp_steps, size=size, rate=rate, hot_slower=hot_slower)
     name = mv['obs']
-    dst1 = mv['cold_stored1'] if mv['direction'] == 'h2c' else mv['hot_stored1']
-    src1 = mv['hot_stored1'] if mv['direction'] == 'h2c' else mv['cold_stored1']
+    fs = mv.get('final_state')
+    if fs is None:
+        return      # the completing step was not observed (direct harness checks this strictly)
+    dst1 = fs['cold_stored'] if mv['direction'] == 'h2c' else fs['hot_stored']
+    src1 = fs['hot_stored'] if mv['direction'] == 'h2c' else fs['cold_stored']
     others = [m for m in tr.moves if m is not mv and m.get('t_enter') is not None and
-              m['t_enter'] <= mv['t_exit'] and (m.get('t_exit') is None or m['t_exit'] >= mv['t_enter'])]
-    slots_busy = (mv.get('hot_transfer1') or mv.get('cold_transfer1')) and not others
+              m['t_enter'] <= fs['t'] and (m.get('t_exit') is None or m['t_exit'] >= mv['t_enter'])]
+    slots_busy = (fs['hot_transfer'] or fs['cold_transfer']) and not others
     if dst1.count(name) != 1 or src1.count(name) != 0 or slots_busy:
         tr.violate('C18', 'not_in_exactly_one_tier', direction=mv['direction'], obs=name,
-                   hot=mv['hot_stored1'], cold=mv['cold_stored1'],
-                   transfer=[mv.get('hot_transfer1'), mv.get('cold_transfer1')])
+                   hot=fs['hot_stored'], cold=fs['cold_stored'],
+                   transfer=[fs['hot_transfer'], fs['cold_transfer']])
